@@ -160,12 +160,22 @@ def arff_observe(lines, sparse):
     return out
 
 
+def levels_ok(decl, got, sparse):
+    """The level list of a cell vs. the written declaration.  Dense: the declaration, in order.  Sparse: coba's documented leading
+    '0' exactly once, then the declaration in order (a declared '0' is that leading level).  A declaration that repeats a level is not
+    valid ARFF (Weka refuses to build such an attribute): then only a duplicate-free list of exactly the declared levels is demanded."""
+    if len(set(got)) != len(got): return False
+    if len(set(decl)) != len(decl):
+        return set(got) == set(decl) or (sparse and set(got) == set(decl) | {'0'} and got[0] == '0')
+    return got == decl or (sparse and got == ['0'] + [l for l in decl if l != '0'])
+
+
 def _veq(exp, got, sparse):
     if exp is None: return got is None
     if isinstance(exp, float): return isinstance(got, (int, float)) and not isinstance(got, bool) and got == exp
     if isinstance(exp, tuple):
         if not (isinstance(got, tuple) and got[1] == exp[1]): return False
-        if not (got[2] == exp[2] or (sparse and got[2] == ['0'] + exp[2])): return False     # documented extra '0' level of sparse nominals
+        if not levels_ok(exp[2], got[2], sparse): return False
         i = got[2].index(got[1])            # the level list IN ORDER is the declaration's, so index / one-hot must follow from it
         return got[3] == i and got[4] == tuple(int(j == i) for j in range(len(got[2])))
     return isinstance(got, str) and got == exp
@@ -184,7 +194,8 @@ def _cell_mode(exp, got):
     if isinstance(e, str) and isinstance(g, str):
         if g == e:
             lv = exp[2] if isinstance(exp, tuple) else None
-            if isinstance(got, tuple) and lv is not None and got[2] not in (lv, ['0'] + lv):
+            if isinstance(got, tuple) and lv is not None and not (levels_ok(lv, got[2], False) or levels_ok(lv, got[2], True)):
+                if len(set(got[2])) != len(got[2]): return 'nominal level list repeats a level'
                 return 'nominal levels differ (same level set, other order)' if set(got[2]) - {'0'} == set(lv) - {'0'} else 'nominal levels differ'
             return 'nominal as_int/as_onehot do not match the level list'
         if '\\' in e and g == e.replace('\\', ''): return 'backslash dropped from value'
